@@ -581,54 +581,11 @@ Definition block_received (b : block) (notes : list note) : Prop :=
 Definition receipts (bl : list (N * N)) (notes : list note) : Prop :=
   forall b, In b c -> has_block bl (b_height b) = true -> block_received b notes.
 
-Lemma put_note_keys k a v r sp : forall l,
-  has_key k (put_note k a v r sp l) /\ forall k', has_key k' l -> has_key k' (put_note k a v r sp l).
-Proof.
-  unfold has_key. induction l as [|n l [IH1 IH2]]; cbn [put_note map].
-  - split; [left; reflexivity | intros k' []].
-  - destruct (key_eqb (n_key n) k) eqn:E.
-    + apply key_eqb_eq in E. cbn [map n_key]. split; [left; reflexivity|].
-      intros k' [<- | H]; [left; auto | right; assumption].
-    + cbn [map]. split; [right; assumption|]. intros k' [<- | H]; [left; reflexivity | right; auto].
-Qed.
-
-Lemma put_outputs_keys nfm locs recv : forall os txs notes txs' notes',
-  put_outputs nfm locs recv os txs notes = (txs', notes') ->
-  (forall o, In o os -> has_key (o_key o) notes') /\ (forall k, has_key k notes -> has_key k notes').
-Proof.
-  induction os as [|o os IH]; intros txs notes txs' notes' H; cbn [put_outputs] in H.
-  - inversion H; subst. split; [intros o [] | auto].
-  - destruct (IH _ _ _ _ H) as [I1 I2].
-    destruct (put_note_keys (o_key o) (out_acct o) (o_value o) recv
-               (match detect_spend nfm locs (o_key o) with Some (t, _) => Some t | None => None end) notes) as [P1 P2].
-    split.
-    + intros o' [<- | Ho']; [apply I2; exact P1 | auto].
-    + intros k Hk. apply I2. apply P2. assumption.
-Qed.
-
 Lemma mark_all_keys txs tid : forall ks l l', mark_all txs ks tid l = Some l' -> map n_key l' = map n_key l.
 Proof.
   induction ks as [|k ks IH]; intros l l' H; cbn [mark_all] in H; [inversion H; reflexivity|].
   destruct (mark_spent txs k tid l) as [l1|] eqn:E; [|discriminate].
   destruct (mark_spent_spec _ _ _ _ _ E) as [K _]. rewrite (IH _ _ H). exact K.
-Qed.
-
-Lemma put_wtxs_keys h nfm locs : forall ws txs notes txs' notes',
-  put_wtxs h nfm locs ws txs notes = Some (txs', notes') ->
-  (forall w o, In w ws -> In o (wt_owned w) -> has_key (o_key o) notes') /\ (forall k, has_key k notes -> has_key k notes').
-Proof.
-  induction ws as [|w ws IH]; intros txs notes txs' notes' H; cbn [put_wtxs] in H.
-  - inversion H; subst. split; [intros w o [] | auto].
-  - destruct (put_wtx h nfm locs w txs notes) as [[txs1 notes1]|] eqn:E; [|discriminate].
-    unfold put_wtx in E.
-    destruct (mark_all (put_tx_meta (wt_id w) h txs) (wt_found w) (wt_id w) notes) as [n1|] eqn:Em; [|discriminate].
-    inversion E as [E']. clear E.
-    destruct (put_outputs_keys _ _ _ _ _ _ _ _ E') as [O1 O2].
-    destruct (IH _ _ _ _ H) as [I1 I2].
-    pose proof (mark_all_keys _ _ _ _ _ Em) as K.
-    split.
-    + intros w' o [<- | Hw'] Ho; [apply I2, O1; assumption | eapply I1; eauto].
-    + intros k Hk. apply I2, O2. unfold has_key in *. rewrite K. assumption.
 Qed.
 
 Lemma scan_txs_owned nfs : forall ts i0 t o,
@@ -659,89 +616,10 @@ Proof.
     + destruct (N.eqb a h'); [reflexivity | assumption].
 Qed.
 
-Lemma put_sblock_receipts floor nfs b r r' (Hb : In b c) :
-  put_sblock floor (scan_block nfs b) r = Ok r' ->
-  receipts (r_blocks r) (r_notes r) -> receipts (r_blocks r') (r_notes r').
-Proof.
-  intros H Hr. unfold put_sblock, scan_block in H.
-  destruct (scan_txs nfs 0 (b_txs b)) as [ws us] eqn:Es. cbn [sb_height sb_hash sb_wtxs sb_unl] in H.
-  destruct (put_block (b_height b) (b_hash b) (r_blocks r)) as [bl|] eqn:Eb; [|discriminate].
-  destruct (put_wtxs (b_height b) (r_nfmap r) (r_locs r) ws (r_txs r) (r_notes r)) as [[txs notes]|] eqn:Ew; [|discriminate].
-  destruct (put_wtxs_keys _ _ _ _ _ _ _ _ Ew) as [K1 K2].
-  assert (Hgoal : receipts bl notes).
-  { intros b' Hb' Hhas t o Ht Ho Hown.
-    destruct (has_block_put _ _ _ _ _ Eb Hhas) as [Eh | Hold].
-    - assert (b' = b) by (eapply heights_from_inj; eauto). subst b'.
-      destruct (scan_txs_owned nfs (b_txs b) 0 t o Ht Ho Hown) as [w [Hw Hwo]]. rewrite Es in Hw. cbn [fst] in Hw.
-      eapply K1; eauto.
-    - apply K2. eapply Hr; eauto. }
-  destruct (should_track floor (b_height b)).
-  - destruct (track (b_height b) us (r_locs r) (r_nfmap r)) as [[locs nfm]|]; [|discriminate].
-    inversion H; subst. exact Hgoal.
-  - inversion H; subst. exact Hgoal.
-Qed.
-
-Lemma put_sblocks_receipts floor : forall bs prior nfs sbs r r',
-  incl bs c ->
-  scan_blocks prior nfs bs = Ok sbs ->
-  put_sblocks floor sbs r = Ok r' ->
-  receipts (r_blocks r) (r_notes r) -> receipts (r_blocks r') (r_notes r').
-Proof.
-  induction bs as [|b bs IH]; intros prior nfs sbs r r' Hin Hs Hp Hr; cbn [scan_blocks] in Hs.
-  - inversion Hs; subst. cbn in Hp. inversion Hp; subst. assumption.
-  - destruct (continuity_ok prior b); [|discriminate].
-    destruct (scan_blocks (Some (b_height b, b_hash b)) (update_nfs nfs (scan_block nfs b)) bs) as [rs| |] eqn:E; try discriminate.
-    inversion Hs; subst. cbn [put_sblocks] in Hp.
-    destruct (put_sblock floor (scan_block nfs b) r) as [r1| |] eqn:E1; try discriminate.
-    eapply IH; [| exact E | exact Hp |].
-    + intros x Hx. apply Hin. right; assumption.
-    + eapply put_sblock_receipts; eauto. apply Hin. left; reflexivity.
-Qed.
-
-Lemma scan_receipts s bs s' : incl bs c -> scan birthday s bs = Ok s' ->
-  receipts (w_blocks s) (w_notes s) -> receipts (w_blocks s') (w_notes s').
-Proof.
-  intros Hin H Hs. unfold scan in H. destruct bs as [|b0 bs0]; [inversion H; subst; assumption|].
-  destruct (scan_blocks _ (unspent_nfs s) (b0 :: bs0)) as [sbs| |] eqn:E; try discriminate.
-  destruct (put_sblocks _ sbs _) as [r| |] eqn:Ep; try discriminate.
-  pose proof (put_sblocks_receipts _ _ _ _ _ _ _ Hin E Ep Hs) as R. cbn in R.
-  destruct (fully_scanned birthday (w_blocks s)) as [f|].
-  - destruct (prune (f - PRUNING_DEPTH) (r_locs r) (r_nfmap r)) as [locs nfm]. inversion H; subst. exact R.
-  - inversion H; subst. exact R.
-Qed.
-
 Lemma has_block_filter f bl h : has_block (filter f bl) h = true -> has_block bl h = true.
 Proof.
   unfold has_block. induction bl as [|[a x] bl IH]; cbn [filter find_block]; [auto|].
   destruct (f (a, x)); cbn [find_block]; destruct (N.eqb a h); auto.
-Qed.
-
-Lemma truncate_receipts s h : receipts (w_blocks s) (w_notes s) -> receipts (w_blocks (truncate s h)) (w_notes (truncate s h)).
-Proof.
-  intros Hr. unfold truncate.
-  destruct (max_scanned (w_blocks s)) as [m|]; [destruct (h <? m)|]; cbn; try assumption.
-  intros b Hb Hhas. apply Hr; [assumption|]. eapply has_block_filter; eauto.
-Qed.
-
-Lemma update_tip_receipts s h : receipts (w_blocks s) (w_notes s) ->
-  receipts (w_blocks (update_tip birthday s h)) (w_notes (update_tip birthday s h)).
-Proof.
-  intros Hs. unfold update_tip. destruct (h <? birthday); [assumption|].
-  destruct (max_scanned (w_blocks s)) as [m|]; [destruct (h <? m)|]; assumption.
-Qed.
-
-Lemma run_receipts : forall ops s s',
-  (forall bs, In (OScan bs) ops -> incl bs c) ->
-  run birthday s ops = Ok s' -> receipts (w_blocks s) (w_notes s) -> receipts (w_blocks s') (w_notes s').
-Proof.
-  induction ops as [|o ops IH]; intros s s' Hops H Hs; cbn [run] in H.
-  - inversion H; subst. assumption.
-  - destruct (step birthday s o) as [s1| |] eqn:E; try discriminate.
-    eapply IH; [intros; apply Hops; right; assumption | exact H |].
-    destruct o as [bs|h|h]; cbn [step] in E.
-    + eapply scan_receipts; eauto. apply Hops. left; reflexivity.
-    + inversion E; subst. apply update_tip_receipts; assumption.
-    + inversion E; subst. apply truncate_receipts; assumption.
 Qed.
 
 End Complete.
@@ -783,54 +661,3 @@ Proof.
   apply in_flat_map. exists b. auto.
 Qed.
 
-Lemma receipts_exact c birthday ops s :
-  heights_from birthday c -> NoDup (map o_key (all_outs c)) ->
-  (forall bs, In (OScan bs) ops -> incl bs c) ->
-  run birthday init ops = Ok s ->
-  forall b t o a, In b c -> has_block (w_blocks s) (b_height b) = true -> In t (b_txs b) -> In o (t_outs t) ->
-    o_owner o = Some a ->
-    exists n, In n (w_notes s) /\ n_key n = o_key o /\ n_acct n = a /\ n_value n = o_value o.
-Proof.
-  intros Hh Hnd Hops Hrun b t o a Hb Hhas Ht Ho Hown.
-  assert (Hr : receipts c (w_blocks s) (w_notes s)).
-  { assert (H0 : receipts c (w_blocks init) (w_notes init)) by (intros b' _ Hhas'; discriminate).
-    exact (run_receipts c birthday Hh ops init s Hops Hrun H0). }
-  assert (Hs : sound c c s) by (eapply (run_sound c c (incl_refl c)); eauto using init_sound).
-  assert (Howned : owned o = true) by (unfold owned; rewrite Hown; reflexivity).
-  specialize (Hr b Hb Hhas t o Ht Ho Howned). unfold has_key in Hr. apply in_map_iff in Hr.
-  destruct Hr as [n [Ek Hn]]. exists n. split; [assumption|]. split; [assumption|].
-  destruct Hs as [_ S2 _ _ _]. rewrite Forall_forall in S2. destruct (S2 _ Hn) as [[b' [t' [o' [Hb' [Ht' [Ho' [Eo [Ek' [Ev _]]]]]]]]] _].
-  assert (o' = o).
-  { apply (NoDup_map_eq o_key (all_outs c) o' o Hnd);
-      [exact (in_all_outs c b' t' o' Hb' Ht' Ho') | exact (in_all_outs c b t o Hb Ht Ho) | congruence]. }
-  subst o'. split; congruence.
-Qed.
-
-Lemma ledger_sound_lemma :
-  forall (birthday : N) (c : list block) (ops : list op) (s : wstate),
-    heights_from birthday c ->
-    (forall bs, In (OScan bs) ops -> incl bs c) ->
-    run birthday init ops = Ok s ->
-    (forall n, In n (w_notes s) ->
-       (exists b t o, In b c /\ In t (b_txs b) /\ In o (t_outs t) /\ o_owner o = Some (n_acct n)
-                      /\ o_key o = n_key n /\ o_value o = n_value n /\ t_id t = n_recv n)
-       /\ (forall tid, In tid (n_spent n) ->
-             exists b t, In b c /\ In t (b_txs b) /\ t_id t = tid /\ In (n_key n) (t_spends t)))
-    /\ NoDup (map n_key (w_notes s))
-    /\ (forall h x, In (h, x) (w_blocks s) -> exists b, In b c /\ b_height b = h /\ b_hash b = x).
-Proof.
-  intros birthday c ops s Hh Hops Hrun.
-  destruct (run_sound c c (incl_refl c) birthday Hh ops init s Hops Hrun (init_sound c c)) as [S1 S2 S3 _ _].
-  rewrite Forall_forall in S1, S2. split; [exact S2|]. split; [exact S3|].
-  intros h x Hin. exact (S1 _ Hin).
-Qed.
-
-Lemma receipts_complete_lemma :
-  forall (birthday : N) (c : list block) (ops : list op) (s : wstate),
-    heights_from birthday c -> NoDup (map o_key (all_outs c)) ->
-    (forall bs, In (OScan bs) ops -> incl bs c) ->
-    run birthday init ops = Ok s ->
-    forall b t o a, In b c -> has_block (w_blocks s) (b_height b) = true ->
-      In t (b_txs b) -> In o (t_outs t) -> o_owner o = Some a ->
-      exists n, In n (w_notes s) /\ n_key n = o_key o /\ n_acct n = a /\ n_value n = o_value o.
-Proof. intros birthday c. exact (receipts_exact c birthday). Qed.
